@@ -10,10 +10,16 @@ import (
 
 // Pools (kept tiny: the point is exhaustive products, not big values).
 var (
-	KeyPool   = []string{"k", "K2", "", "\r\n", "\x00a", "$-1"}
-	StrPool   = []string{"v", "", "x\r\ny", "\r\n+OK\r\n", "\x00\xff", "*1"}
-	IntPool   = []string{"0", "1", "-1", "2", "9", "10", "2147483647", "2147483648", "-2147483648", "9223372036854775807", "-9223372036854775808"}
-	IdxPool   = []string{"0", "1", "-1", "2", "10", "-2", "2147483647", "-2147483648"}
+	KeyPool = []string{"k", "K2", "", "\r\n", "\x00a", "$-1"}
+	StrPool = []string{"v", "", "x\r\ny", "\r\n+OK\r\n", "\x00\xff", "*1"}
+	IntPool = []string{"0", "1", "-1", "2", "9", "10", "2147483647", "2147483648", "-2147483648", "9223372036854775807", "-9223372036854775808"}
+	IdxPool = []string{"0", "1", "-1", "2", "10", "-2", "2147483647", "-2147483648"}
+	// NonPositive: expiry values SET / SETEX must refuse - zero, and negative numbers around
+	// every place where a conversion to a 32-bit integer, to nanoseconds or to a
+	// duration wraps
+	NonPositive = []string{"0", "-1", "-2147483648", "-2147483649", "-4294967296", "-9223372036", "-9223372037", "-10000000000", "-18446744074", "-9223372036854775", "-9223372036854775807", "-9223372036854775808"}
+	// AtPool: absolute expiry times in seconds (EXPIREAT) around the same places
+	AtPool    = []string{"1", "10", "2147483647", "2147483648", "4294967296", "0", "-1", "9223372036", "9223372037", "10000000000", "32503680000", "253402300799"}
 	TTLPool   = []string{"1", "10", "2147483647", "2147483648", "0", "-1"}
 	PosPool   = []string{"1", "10", "2147483648"}
 	FloatPool = []string{"0", "1.5", "-2", "1e3", "-inf", "+inf"}
@@ -40,8 +46,10 @@ func poolFor(s *Spec, i int, small bool) []string {
 		return pick(StrPool, small)
 	case Int:
 		switch s.Name {
-		case "EXPIRE", "EXPIREAT":
+		case "EXPIRE":
 			return pick(TTLPool, small)
+		case "EXPIREAT":
+			return AtPool
 		case "SETEX":
 			return pick(PosPool, small)
 		case "SELECT":
@@ -586,8 +594,9 @@ func EachBad(s *Spec, f func(Bad)) {
 				for _, b := range ex {
 					emit([]string{"SET", "k", "v", cv(a), "10", cv(b), "10"}, "set-exclusive-expiry")
 				}
-				emit([]string{"SET", "k", "v", cv(a), "0"}, "set-expiry-nonpositive")
-				emit([]string{"SET", "k", "v", cv(a), "-1"}, "set-expiry-nonpositive")
+				for _, n := range NonPositive {
+					emit([]string{"SET", "k", "v", cv(a), n}, "set-expiry-nonpositive")
+				}
 				emit([]string{"SET", "k", "v", cv(a)}, "missing-arg@expiry")
 				for _, t := range NonInts {
 					emit([]string{"SET", "k", "v", cv(a), t}, "non-numeric@expiry")
@@ -595,7 +604,8 @@ func EachBad(s *Spec, f func(Bad)) {
 			}
 		}
 	case "SETEX":
-		emit([]string{"SETEX", "k", "0", "v"}, "set-expiry-nonpositive")
-		emit([]string{"SETEX", "k", "-1", "v"}, "set-expiry-nonpositive")
+		for _, n := range NonPositive {
+			emit([]string{"SETEX", "k", n, "v"}, "set-expiry-nonpositive")
+		}
 	}
 }
